@@ -3,8 +3,8 @@ import vlib
 CFG = dict(
     imports=["From Verif.Common Require Import Cas.", "From Verif.C19 Require Import Model.", "From Verif.C22 Require Import Model Spec."],
     checker="check_case",
-    n=dict(quick=80, thorough=3000),
-    shard=20,
+    n=dict(quick=48, thorough=3000),
+    shard=6,
     harness_dirs=["C19", "C22"],
     deps=["C19"],
     rule="case 0 is the scripted minimal witness of the same-host release/claim race; each other case = one pool (1-4 blocks of 2-4 "
